@@ -3,6 +3,8 @@ import gfapy
 class SameID:
 
   def _process_not_unique(self, previous):
+    if previous.record_type != self.record_type:
+      return super()._process_not_unique(previous)
     self._gfa = previous.gfa
     self._initialize_references()
     cur_items = self.get("items")
